@@ -140,7 +140,8 @@ ConfigsDefault == {<<50, 25>>}
 StartEmpty == {<<>>}
 \* tied pools of 20..32 values (few distinct values, so that the allocation generating function stays small; C(N, n1) and
 \* twice its value fit TLC's integers up to N = 32); every split 0..N of each is explored
-MidPoolsQuick == {<<5, 5, 5, 5>>, <<10, 11>>, <<1, 20, 2>>, <<12, 13>>, <<6, 7, 12>>, <<9, 1, 1, 15>>, <<16, 16>>}
+\* (tie groups of 21..25 values: binomials of more than 20 leave the exactly representable factorial range)
+MidPoolsQuick == {<<5, 5, 5, 5>>, <<10, 11>>, <<1, 20, 2>>, <<12, 13>>, <<6, 7, 12>>, <<9, 1, 1, 15>>, <<16, 16>>, <<22, 1>>, <<1, 23, 2>>, <<24, 3>>, <<2, 21>>, <<25, 1, 1>>}
 MidPoolsThorough == MidPoolsQuick \cup {<<3, 4, 5, 6, 7>>, <<7, 7, 8>>, <<6, 6, 6, 6>>, <<13, 14>>, <<10, 10, 10>>, <<2, 19>>, <<21, 1>>, <<1, 1, 22>>, <<8, 8, 8, 8>>,
                                         <<4, 4, 4, 4, 4, 4>>, <<11, 1, 11>>, <<2, 3, 2, 3, 2, 3, 2, 3, 2>>, <<15, 2, 15>>}
 ConfigsWide == {<<1000, 1000>>}
